@@ -200,8 +200,11 @@ def r3(F, R):
             got.setdefault(lvar, []).append((v, s))
     for stepv, tev in want.items():
         g = got.get(stepv, [])
-        R.check(len(g) == 1 and g[0][0] == tev, f"step-to-test-event/{stepv}", g[0][1] if g else root, f"Step::{stepv} -> one `{tev.lower()}` line",
-                f"Step::{stepv} produces {[x[0] for x in g]} test events; expected exactly one `{tev}`")
+        # one line per path: several construction sites are fine when no path passes two of them (`if show_output {..} else {..}`)
+        excl = all(a[1].body is c[1].body and a[1].bb != c[1].bb and c[1].bb not in a[1].body.reachable_blocks(a[1].bb) and a[1].bb not in a[1].body.reachable_blocks(c[1].bb)
+                   for i, a in enumerate(g) for c in g[i + 1:])
+        R.check(len(g) >= 1 and all(x[0] == tev for x in g) and excl, f"step-to-test-event/{stepv}", g[0][1] if g else root, f"Step::{stepv} -> one `{tev.lower()}` line",
+                f"Step::{stepv} produces {[x[0] for x in g]} test events{'' if excl else ' on one path'}; expected exactly one `{tev}`")
     R.floor(12)
 
 
@@ -845,9 +848,47 @@ def r9(F, R):
         elif kind in ("Background", "Step") and sub == "Started":
             ok = bool(full) and all(len(pc) <= 1 and all(not (styles_of(printers[c[1]]) & {"ok", "err", "skipped"}) for c in pc) for pc, _ in full)
             R.check(ok, inst, disp, "at most the pending line is printed", "terminal writer prints a result line for Step::Started")
+    # transient lines (the pending `Started` line, logs) are erased before a result is printed: in every routine printing a step / hook
+    # result each write to the output is dominated by a call of the eraser (the routine calling `clear_last_lines`) — otherwise, with
+    # colours on, the pending line stays (the step shows twice) and the stale line count later erases real lines
+    erasers = [b for b in owns if any(callee_is(t, r"WriteStrExt::clear_last_lines$") for _, t in b.calls())]
+    if len(erasers) != 1:
+        raise Unverifiable(f"terminal writer: the routine erasing transient lines: {len(erasers)}")
+    er = erasers[0]
+
+    def must_erase(fb, depth=0):
+        """every path through `fb` calls the eraser (its call dominates every return)"""
+        if fb is er:
+            return True
+        es = [st_ for st_, t in fb.calls() if F.callee_body(t, fb.crate) is er or (depth < 2 and F.callee_body(t, fb.crate) is not None and own(F.callee_body(t, fb.crate))
+                                                                                  and F.callee_body(t, fb.crate) is not fb and must_erase(F.callee_body(t, fb.crate), depth + 1))]
+        rets = [Site(fb, i, "T") for i, blk in enumerate(fb.blocks) if blk["term"]["k"] == "return"]
+        return bool(es) and all(any(fb.dominates(e, r_) for e in es) for r_ in rets)
+
+    def unerased_writes(fb, depth=0):
+        es = [st_ for st_, t in fb.calls() if F.callee_body(t, fb.crate) is not None and own(F.callee_body(t, fb.crate)) and must_erase(F.callee_body(t, fb.crate))]
+        bad = []
+        for st_, t in fb.calls():
+            cb = F.callee_body(t, fb.crate)
+            w = callee_is(t, WRITE) or (cb is not None and own(cb) and cb is not er and cb is not fb and depth < 2 and prints_directly(cb) and not must_erase(cb) and unerased_writes(cb, depth + 1))
+            if w and not any(fb.dominates(e, st_) for e in es):
+                bad.append(st_)
+        return bad
+    n_er = 0
+    for (kind, sub), lst in sorted(seen.items(), key=str):
+        if not (kind in ("Background", "Step") and sub in STYLE or (kind == "Hook" and sub == "Failed")):
+            continue
+        names = {pc[0][1] for pc, early, _ in lst if not early and len(pc) == 1}
+        for nm in sorted(names):
+            n_er += 1
+            bad = unerased_writes(printers[nm])
+            R.check(not bad, f"terminal/erases-pending-lines/{kind}::{sub}", bad[0] if bad else printers[nm], "every write is preceded by the erasure of the transient lines",
+                    f"`{printers[nm].short.rsplit('::', 1)[-1]}` writes the {kind} {sub} result without first erasing the transient lines (pending `Started` line, logs): "
+                    f"with colours on the step is shown twice and the stale line count later erases lines that were real")
+    R.check(n_er >= 7, "terminal/erases-pending-lines/routines", disp, f"{n_er} result-printing routines", f"only {n_er} result-printing routines found")
     want = {(k, s1) for k in ("Background", "Step") for s1 in ("Started", "Passed", "Skipped", "Failed")} | {("Hook", "Started"), ("Hook", "Passed"), ("Hook", "Failed"), ("Log", None), ("Started", None), ("Finished", None)}
     R.check(want <= set(seen), "terminal/table-complete", disp, f"{len(seen)} event shapes", f"rows missing from the terminal writer's table: {sorted(map(str, want - set(seen)))[:4]}")
-    R.floor(12)
+    R.floor(20)
 
 
 # ---- R10: Cucumber JSON — an entry created for a key is found again by the look-up (constructor / comparator agreement) ------
